@@ -65,6 +65,38 @@ def run(ctx):
             if len(hs) >= 3:
                 ctx.nontrivial((name, t0, tf, dt))
             ctx.count("fixed:" + pat)
+    # several calls on one system: there and back again, continuation past a first target, after a reset
+    for name in FIXED_EXPLICIT:
+        cls = getattr(I, name)
+        for _ in range(2 if ctx.quick() else 12):
+            pat, t0, tf, dt = span(rng)
+            mid = t0 + (tf - t0) * rng.choice([0.25, 0.5, 0.6])
+            plan = rng.choice(["there-and-back", "continue", "back-beyond-start", "reset-between"])
+            ops = {"there-and-back": [("int", None, {}), ("int", t0, {})],
+                   "continue": [("int", mid, {}), ("int", None, {})],
+                   "back-beyond-start": [("int", mid, {}), ("int", t0 - (tf - t0) * 0.5, {})],
+                   "reset-between": [("int", None, {}), ("reset",), ("int", mid, {})]}[plan]
+            sc = loopsim.Scenario(cls, [("new", t0, tf, dt)] + ops, rhs=auto_rhs, y0=np.array([1.0, 0.3]))
+            try:
+                sc.run_impl()
+            except loopsim.BudgetExceeded:
+                continue
+            inp = dict(kind="fixed-step-calls", method=name, t0=t0, tf=tf, dt=dt, plan=plan, ops=[list(map(str, o)) for o in sc.ops])
+            cur = abs(dt)
+            for op, rec in zip(sc.ops, sc.records):
+                if op[0] != "int" or not rec["log"]:
+                    continue
+                hs = [e["h"] for e in rec["log"]]
+                # the step in force is the requested one unless an earlier call had to clip it to half its (shorter) span
+                first = abs(hs[0])
+                ok = first <= cur * (1 + 1e-15) and all(abs(h) == first for h in hs[:-1]) and abs(hs[-1]) <= first
+                ctx.oracle("requests-equal-dt-across-calls", ok, dict(inp, requests=hs[:5] + hs[-2:], step_in_force=cur),
+                           what="call %s requested steps %s although the step in force was %r" % (op[1], [round(h, 6) for h in hs[:4]], cur))
+                cur = min(cur, first)
+            scs.append(sc)
+            lines.append(sc.model_line())
+            ctx.count("calls:" + plan)
+            ctx.nontrivial((name, t0, tf, dt, plan))
     outs = ctx.driver(lines)
     for sc, o in zip(scs, outs):
         sc.compare(ctx, o, "loop")
